@@ -508,7 +508,8 @@ def fetchRegion (d : Db) (t : Tx) (bid off len : Nat) : Except String Bytes :=
     | none => .error "err:BlockNotFound"
     | some row =>
       let (f, o, l) := deserializeBlockLoc row
-      if endOff < off || endOff > l then .error "err:BlockRegionInvalid" else
+      -- the row stores the framed record length
+      if endOff < off || endOff > l - 12 then .error "err:BlockRegionInvalid" else
       match fileGet d.files f with
       | none => .error "err:DriverSpecific"
       | some fb =>
@@ -626,7 +627,7 @@ def fetchRegionM (t : Tx) (bid off len : Nat) : M String := do
   | some (f, _, _), .ok _ => if !(← readIo f) then return "err:DriverSpecific"
   | some (f, _, l), .error e =>
     -- the region check precedes the read; a missing file is found at open time
-    if e == "err:DriverSpecific" && !((off + len) % 2^32 < off || (off + len) % 2^32 > l) then
+    if e == "err:DriverSpecific" && !((off + len) % 2^32 < off || (off + len) % 2^32 > l - 12) then
       let _ ← readIo f
   | _, _ => pure ()
   return exceptStr r
